@@ -1174,9 +1174,62 @@ def run_data(ctx, binp, drv, lines):
     return [(model.get(k, ["?"]), impl.get(k, ["?"])[1:]) for k in range(len(lines))]
 
 
-def data_cell(line, op, got):
-    """(operation, outcome, alignment branch) of one call, from the state before it"""
-    return (op.split(",")[0], got.split("@")[0].split("#")[0].split(":")[0])
+def data_cell(q, prev, op, got):
+    """(operation, outcome, alignment branch, an operand longer than the destination?) of one call;
+    `prev` = `delta.budget.size` of every slot before the call"""
+    f = op.split(",")
+    name = f[0]
+    kind = got.split("@")[0].split("#")[0].split(":")[0]
+    try:
+        st = [tuple(int(x) for x in e.split(".")) for e in prev]
+        if name in ("add", "sub"):
+            d, a, b = (st[int(x)] for x in f[1:4])
+            off = max(0, min(a[0] + a[1], b[0] + b[1]) - d[2] * q)
+            br = "exact" if off == 0 and a[1] == b[1] else ("a<=b" if a[1] <= b[1] else "a>b")
+            return (name, kind, br, off > 0, max(a[2], b[2]) > d[2])
+        if name in ("add_assign", "sub_assign"):
+            d, a = (st[int(x)] for x in f[1:3])
+            br = "d<a" if d[1] < a[1] else ("d>a" if d[1] > a[1] else "d=a")
+            return (name, kind, br, False, a[2] > d[2])
+        if name in ("neg", "mul_pow2", "div_pow2"):
+            d, a = (st[int(x)] for x in f[1:3])
+            off = max(0, a[0] + a[1] - d[2] * q)
+            return (name, kind, "-", off > 0, a[2] > d[2])
+        if name == "rescale":
+            d, a = st[int(f[1])], st[int(f[3])]
+            return (name, kind, "-", a[0] + a[1] - int(f[2]) > d[2] * q, a[2] > d[2])
+        if name == "align":
+            a, b = (st[int(x)] for x in f[1:3])
+            return (name, kind, "a<b" if a[1] < b[1] else "a>=b", False, False)
+    except (ValueError, IndexError):
+        pass
+    return (name, kind, "-", False, False)
+
+
+def data_scenarios():
+    """fixed programs for the branches the random stream reaches rarely: `Err` of add/sub into a narrow destination (the
+    destination keeps the un-normalised aligned sum), the exact branch with operands longer than the destination, the
+    three branches of the in-place forms with a longer operand, shifts that drop limbs"""
+    out = []
+    k = 0
+    for be, q0 in BACKENDS:
+        for q in ([52, 19] if be.startswith("ntt") else [17, 12]):
+            progs = [
+                # err: offset 33.. > min budget
+                (f"3:{2*q}:10/3:{2*q}:12/1:0:0/2:0:0", "add,2,0,1;sub,2,0,1;add,2,1,0;sub,3,1,0;add,3,0,0"),
+                # exact branch, three limbs into two
+                (f"3:{q//2}:{q}/3:{q//2+1}:{q}/2:0:0", "add,2,0,1;sub,2,1,0;neg,2,0;mul_pow2,2,1,0;add_assign,2,0;sub_assign,2,1"),
+                # in-place forms: d<a, d>a, d=a with a longer operand
+                (f"2:{q//2}:{q//2}/3:{q//2}:{q+3}/3:{q//2}:{q//2}/3:{q//2}:3", "add_assign,0,1;sub_assign,0,2;add_assign,0,3;sub_assign,0,1;sub_assign,0,3;add_assign,0,2"),
+                # unary into a narrower destination, rescale paying the offset, division
+                (f"4:{q}:{2*q+5}/2:0:0/1:0:0", f"neg,1,0;mul_pow2,1,0,{q+3};div_pow2,1,0,7;rescale,1,{q+1},0;rescale,2,{q},0;neg,2,0;div_pow2,2,0,{2*q}"),
+                # align both ways, then add / sub on aligned operands
+                (f"3:{q//2}:{q+9}/3:{q//2}:{q}/3:0:0", "align,0,1;add,2,0,1;align,1,0;rescale_assign,1,4;align,0,1;sub,2,0,1"),
+            ]
+            for pool, ops in progs:
+                k += 1
+                out.append(f"be={be} n=16 base2k={q} maxprec=53 keys=- pool={pool} dump=1 seed={1000 + k} ops={ops}")
+    return out
 
 
 def run(ctx):
@@ -1336,7 +1389,7 @@ def run(ctx):
         ctx.cov["roundtrip"] = {"cases": len(rt), "worst_encoder_log2_rel": worst_enc, "worst_quantised_log2_times_delta": worst_full, "bad": rt_bad}
 
         # ---- data tie: limbs after every call of the linear fragment (Model/CkksData.lean, Props/C16 §8)
-        dl = data_programs(rng.fork(), 60 if quick else 4000, 10 if quick else 14)
+        dl = data_scenarios() + data_programs(rng.fork(), 60 if quick else 4000, 10 if quick else 14)
         dstat = {"programs": len(dl), "calls": 0, "ok": 0, "err": 0, "limbs_compared": 0, "mismatch": 0}
         dcells = {}
         for off in range(0, len(dl), 500):
@@ -1344,19 +1397,22 @@ def run(ctx):
             for line, (m, i) in zip(chunk, run_data(ctx, binp, drv, chunk)):
                 kv, keys, pool, ops = parse_header(line)
                 k = first_diff(m, i)
+                prev = [f"{d_}.{b_}.{s0}" for (s0, d_, b_) in pool]
                 for s_, (op, got) in enumerate(zip(ops, i)):
                     dstat["calls"] += 1
                     dstat["ok"] += int(got.startswith("ok"))
                     dstat["err"] += int(got.startswith("err"))
                     dstat["limbs_compared"] += got.count(".") + 1 if "#" in got else 0
-                    cell = data_cell(line, op, got)
+                    cell = data_cell(int(kv["base2k"]), prev, op, got)
                     dcells[cell] = dcells.get(cell, 0) + 1
                     ctx.count_case(("data", kv["be"], kv["n"], kv["base2k"]) + cell, nontrivial=True)
+                    if "@" in got:
+                        prev = got.split("@")[1].split("#")[0].split("/")
                 if k is not None:
                     dstat["mismatch"] += 1
                     ctx.disagreements += 1
                     disagree_data.append((line, k, m[k] if k < len(m) else "-", i[k] if k < len(i) else "-"))
-        dstat["cells"] = {f"{a}:{b}": v for (a, b), v in sorted(dcells.items())}
+        dstat["cells"] = {f"{a}:{b}:{c}:off>0={int(d)}:longer={int(e_)}": v for (a, b, c, d, e_), v in sorted(dcells.items())}
         ctx.cov["data_tie"] = dstat
 
     # ---- reporting
